@@ -338,6 +338,13 @@ def install(reg, src):
                 path.oblige(oid("_lp_cache untouched"), z3.And(z3.Not(lp_now_none), box_now == z3.simplify(z3.Select(st0_lp, P.ref))), kind="frame", props=["C13", "C20"])
             gw = [pl for t, pl in path.events if t == "global-write"]
             path.oblige(oid("no process-global state written"), z3.BoolVal(len(gw) == 0), kind="frame", props=["C20"])
+            exd_ = path.ghost.get("lp_extract")
+            if exd_ is not None:
+                # the LP data object (cached on the problem and reused by later solves) is never modified
+                lp_ = exd_["obj"]
+                c0 = sym.fn("LP_c", sym.Ref, sym.RealArr)(exd_["lpref"])
+                path.oblige(oid("cached LP data not modified (cost vector)"), z3.BoolVal(lp_.fields["c"].arr.eq(c0)), kind="frame",
+                            props=["C08", "C13"])
             # ---------------- C18: integrality never relaxed silently
             vb = path.ghost.get("lp_vars_filter")
             if calls:
